@@ -720,7 +720,7 @@ def enumerate_items(tier, rng):
                 items.append((fi, bits, h))
     random.Random(20261002).shuffle(items)        # fixed order: a run cut by the budget still spans every family
     n_exh = len(items)
-    nrand = 600 if tier == "quick" else 60000
+    nrand = 600 if tier == "quick" else 30000
     for i in range(nrand):
         fi = rng.randrange(len(FAMILIES))
         fam = FAMILIES[fi]
